@@ -245,6 +245,9 @@ func cfgStatusStmts(n map[string]any) string {
 	for _, f := range carr(n, "iff") {
 		s += " if-feature " + f.(string) + ";"
 	}
+	for _, w := range carr(n, "whens") {
+		s += " when " + yq(w.(string)) + ";"
+	}
 	return s
 }
 
@@ -260,6 +263,9 @@ func nodeItems(n map[string]any) []string {
 		}
 		for _, f := range carr(n, "iff") {
 			items = append(items, "if-feature "+f.(string)+";")
+		}
+		for _, w := range carr(n, "whens") {
+			items = append(items, "when "+yq(w.(string))+";")
 		}
 	}
 	minmax := func() {
